@@ -1,6 +1,8 @@
 package bttest
 
 import (
+	"bytes"
+
 	btpb "cloud.google.com/go/bigtable/apiv2/bigtablepb"
 	"github.com/syndtr/goleveldb/leveldb"
 	"github.com/syndtr/goleveldb/leveldb/util"
@@ -18,6 +20,10 @@ func (rows *leveldbRows) Ascend(iterator RowIterator) {
 }
 
 func (rows *leveldbRows) AscendRange(greaterOrEqual, lessThan keyType, iterator RowIterator) {
+	if bytes.Compare(greaterOrEqual, lessThan) >= 0 {
+		// An empty range, like the btree store treats it. goleveldb panics on Start > Limit once it has table files.
+		return
+	}
 	rows.ascendRange(&util.Range{
 		Start: greaterOrEqual,
 		Limit: lessThan,
